@@ -189,14 +189,14 @@ func (c *Collection) BulkWrite(ctx context.Context, models []mongo.WriteModel, o
 			result.ModifiedCount += int64(len(res.Modified))
 			if res.Upserted != nil {
 				result.UpsertedCount++
-				result.UpsertedIDs[int64(i)] = bsonkit.Get(res.Upserted, "_id")
+				result.UpsertedIDs[int64(i)] = bsonkit.MustConvertValue(bsonkit.Get(res.Upserted, "_id"))
 			}
 		case Update:
 			result.MatchedCount += int64(len(res.Matched))
 			result.ModifiedCount += int64(len(res.Modified))
 			if res.Upserted != nil {
 				result.UpsertedCount++
-				result.UpsertedIDs[int64(i)] = bsonkit.Get(res.Upserted, "_id")
+				result.UpsertedIDs[int64(i)] = bsonkit.MustConvertValue(bsonkit.Get(res.Upserted, "_id"))
 			}
 		case Delete:
 			result.DeletedCount += int64(len(res.Matched))
@@ -406,7 +406,13 @@ func (c *Collection) Distinct(ctx context.Context, field string, filter interfac
 	// collect distinct values
 	values := mongokit.Distinct(list, field)
 
-	return values, nil
+	// copy values as they are still part of the stored documents
+	result := make([]interface{}, 0, len(values))
+	for _, value := range values {
+		result = append(result, bsonkit.MustConvertValue(value))
+	}
+
+	return result, nil
 }
 
 // Drop implements the ICollection.Drop method.
@@ -971,8 +977,14 @@ func (c *Collection) InsertMany(ctx context.Context, documents []interface{}, op
 	// get result
 	result := res.(*Result)
 
+	// copy ids as they are still part of the stored documents
+	ids := make([]interface{}, 0, len(result.Modified))
+	for _, id := range bsonkit.Pick(result.Modified, "_id", false) {
+		ids = append(ids, bsonkit.MustConvertValue(id))
+	}
+
 	return &mongo.InsertManyResult{
-		InsertedIDs: bsonkit.Pick(result.Modified, "_id", false),
+		InsertedIDs: ids,
 	}, result.Error
 }
 
@@ -1020,7 +1032,7 @@ func (c *Collection) InsertOne(ctx context.Context, document interface{}, opts .
 	}
 
 	return &mongo.InsertOneResult{
-		InsertedID: bsonkit.Get(result.Modified[0], "_id"),
+		InsertedID: bsonkit.MustConvertValue(bsonkit.Get(result.Modified[0], "_id")),
 	}, nil
 }
 
@@ -1089,7 +1101,7 @@ func (c *Collection) ReplaceOne(ctx context.Context, filter, replacement interfa
 	if result.Upserted != nil {
 		return &mongo.UpdateResult{
 			UpsertedCount: 1,
-			UpsertedID:    bsonkit.Get(result.Upserted, "_id"),
+			UpsertedID:    bsonkit.MustConvertValue(bsonkit.Get(result.Upserted, "_id")),
 		}, nil
 	}
 
@@ -1179,7 +1191,7 @@ func (c *Collection) UpdateMany(ctx context.Context, filter, update interface{},
 	if result.Upserted != nil {
 		return &mongo.UpdateResult{
 			UpsertedCount: 1,
-			UpsertedID:    bsonkit.Get(result.Upserted, "_id"),
+			UpsertedID:    bsonkit.MustConvertValue(bsonkit.Get(result.Upserted, "_id")),
 		}, nil
 	}
 
@@ -1254,7 +1266,7 @@ func (c *Collection) UpdateOne(ctx context.Context, filter, update interface{}, 
 	if result.Upserted != nil {
 		return &mongo.UpdateResult{
 			UpsertedCount: 1,
-			UpsertedID:    bsonkit.Get(result.Upserted, "_id"),
+			UpsertedID:    bsonkit.MustConvertValue(bsonkit.Get(result.Upserted, "_id")),
 		}, nil
 	}
 
